@@ -112,8 +112,19 @@ class GrammarGen:
             out.extend(v)
         return out
 
-    def sentence(self, start=None, budget=st.integers(3, 7), pool='lite'):
-        """Strategy for a token list (strings) derived from `start` (a nonterminal, or None = stratified)."""
+    # identifier spellings used in tame mode instead of deriving `identifier` (no keyword-spelled parts, no star or
+    # integer parts in the middle)
+    TAME_IDENTIFIERS = [['a'], ['b'], ['t1'], ['col1'], ['t1', '.', 'a'], ['int1', '.', 't1'], ['`a b`'],
+                        ['`select`'], ['x1', '.', '`a b`'], ['T2'], ['pred'], ['proj', '.', 'pred']]
+
+    def sentence(self, start=None, budget=st.integers(3, 7), pool='lite', tame=False):
+        """Strategy for a token list (strings) derived from `start` (a nonterminal, or None = stratified).
+
+        tame=True excludes, by construction, the constructs whose printers are known to be broken wholesale on the
+        pinned tree (keyword-spelled identifiers via the `id: KEYWORD` productions, star/integer parts in the middle
+        of identifiers, arbitrary statements as sub-queries, random token soup as raw queries): `id` derives only
+        ID, `identifier` comes from a fixed list, a nested `query` is a select/union, `raw_query` is a derived select.
+        """
         gen = self
         pools = POOLS[pool]
 
@@ -126,7 +137,7 @@ class GrammarGen:
                 sym = start
             out = []
 
-            def derive(sym, b):
+            def derive(sym, b, top=False):
                 if sym not in gen.prods:
                     if sym in pools:
                         out.append(draw(st.sampled_from(pools[sym])))
@@ -134,6 +145,17 @@ class GrammarGen:
                         out.append(gen.kw[sym])
                     return
                 alts = [a for a in gen.prods[sym] if gen.usable(a)]
+                if tame:
+                    if sym == 'id':
+                        alts = [a for a in alts if a == ('ID',)] or alts
+                    elif sym == 'identifier':
+                        out.extend(draw(st.sampled_from(gen.TAME_IDENTIFIERS)))
+                        return
+                    elif sym == 'query' and not top:
+                        alts = [a for a in alts if a in (('select',), ('union',))] or alts
+                    elif sym == 'raw_query':
+                        derive('select', min(b, 3))
+                        return
                 if b <= 0:
                     m = gen.altdepth(alts[0])
                     alts = [a for a in alts if gen.altdepth(a) == m]
@@ -141,7 +163,7 @@ class GrammarGen:
                 for s in a:
                     derive(s, b - 1)
 
-            derive(sym, b)
+            derive(sym, b, top=True)
             return out
         return _sentence()
 
